@@ -537,6 +537,11 @@ fn inline_docs(repo: &str) -> Vec<String> {
     add(&none, "many-types.wac", "package test:comp;\n\ntype a = u32;\ntype b = list<a>;\ntype c = tuple<a, b>;\ntype d = option<a>;\ntype e = result<a>;\nrecord f { x: a, y: b }\nvariant g { p(a), q(c) }\ntype h = list<f>;\nexport h;\n");
     add(&none, "base-after.wac", "package test:comp;\n\ninterface i {\n    type b = list<a>;\n    type c = tuple<a, b>;\n    type d = option<a>;\n    type a = u32;\n}\n");
     add(&deps, "include-pkg.wac", "package test:comp;\n\nworld w {\n    include foo:bar/baz;\n}\n");
+    // a spread argument that supplies several imports at once (argument edges / aliases are created per import)
+    let root = std::env::var("VERIF_ROOT").unwrap_or_else(|_| "/verif".into());
+    let multi = Path::new(&root).join("corpus/C16/deps");
+    add(&multi, "spread-many.wac", "package test:comp;\n\nlet p = new multi:provider { ... };\nlet c = new multi:consumer { ...p };\nexport c...;\n");
+    add(&multi, "spread-many-2.wac", "package test:comp;\n\nlet p = new multi:provider { ... };\nlet q = new multi:provider { ... };\nlet c = new multi:consumer { a: q.a, ...p };\nlet d = new multi:consumer { ...q, ... };\nexport c.out;\nexport d.out as out2;\n");
     v
 }
 
